@@ -24,12 +24,13 @@ import vf
 PID = "C16"
 PKG = "./verifdrivers/c16"
 TEST = "TestVerifC16"
-ALL_EPS = ["execv2", "execv1", "graffiti", "builderbid", "proposalbest", "proposer", "attester", "aggregator",
+ALL_EPS = ["execv2", "execv1", "execmutate", "graffiti", "builderbid", "proposalbest", "proposer", "attester", "aggregator",
            "syncmessenger", "syncaggregator", "mergeduties", "cacheevents", "submitclassify"]
 # the all-benign shape of every entry point: must end "ok", otherwise the harness does not reach the code
 BASELINE = {
     "execv2": {"version": "2", "top": "all", "relays": "one", "proposers": "account", "prelays": "one", "match": "y"},
     "execv1": {"version": "absent", "dflt": "full", "pc": "one", "brelays": "one", "match": "y"},
+    "execmutate": {"base": "v2", "site": "0", "mut": "duplicate"},
     "graffiti": {"file": "one", "fallback": "none", "loc": "plain"},
     "builderbid": {"strat": "best", "addr": "good", "bid": "valid", "second": "none", "pkcfg": "none"},
     "proposalbest": {"graffiti": "plain", "clen": "10", "nodeclient": "ok", "proposal": "ok", "n": "1"},
@@ -124,12 +125,14 @@ def scenarios(tier, scen_cfg):
     calls.sort(key=lambda c: (c["ep"], json.dumps(c["shape"], sort_keys=True)))
     if tier == "quick":
         # quick: the whole lattice of the small entry points, a seeded half of the two big
-        # configuration lattices (the thorough tier runs everything)
+        # configuration lattices and a seeded 30 % of the mutated documents (the thorough tier runs everything)
         rnd = random.Random(vf.seed())
         keep = []
         for c in calls:
             base = BASELINE.get(c["ep"]) == c["shape"]
             if c["ep"] in ("execv1", "execv2") and not base and rnd.random() < 0.5:
+                continue
+            if c["ep"] == "execmutate" and not base and rnd.random() < 0.7:
                 continue
             keep.append(c)
         calls = keep
@@ -292,8 +295,9 @@ def run(tier):
     ]
     active = eps()
     scen_cfg, trace_cfg = write_cfgs(active)
-    if active == ALL_EPS:
-        v.add_mc(vf.tlc_exhaustive(PID, "Robustness", "MC_Robustness.cfg", coverage=(tier == "thorough")))
+    # the exhaustive run is part of every run (also of development runs restricted with VERIF_C16_EPS):
+    # evidence.states / transitions are always those of THIS run
+    v.add_mc(vf.tlc_exhaustive(PID, "Robustness", "MC_Robustness.cfg", coverage=(tier == "thorough")))
     sc = scenarios(tier, scen_cfg)
     sizes = {}
     for s in sc:
